@@ -35,10 +35,10 @@ PROJ = {
 # operations whose lines are compared for a property (None: every line).  Other operations of a
 # case only build the state; a deviation there is visible in the snapshots of the compared ones.
 RELEVANT = {
-    "C08": {"alg", "is_subset", "is_superset", "is_disjoint", "sub"},
-    "C09": {"iter", "get", "get_mut", "shapes"},
-    "C13": {"gdm", "gdum", "get_mut"},
-    "C14": {"eq"},
+    "C08": {"alg", "is_subset", "is_superset", "is_disjoint", "sub", "sweep"},
+    "C09": {"iter", "get", "get_mut", "shapes", "sweep"},
+    "C13": {"gdm", "gdum", "get_mut", "sweep"},
+    "C14": {"eq", "sweep"},
     "C19": {"fmt", "iter", "alg", "drain", "into_iter"},
     "C20": {"serde", "serde_wrong", "serde_zst", "eq", "len", "get", "iter"},
 }
